@@ -68,6 +68,10 @@ std::string projectModel(NifFile& nif);
 std::unique_ptr<NiObject> makeBlock(const JV& b, const nifly::NiVersion& ver);
 // Apply one NifGraph action (as exported by TLC) to a live model. Returns false if the op is unknown.
 bool applyGraphOp(NifFile& nif, const JV& a);
+// NifFile-level edits on nodes and shapes (AddNode, SetParent, DeleteNode, DeleteShape, DeleteShader, DeleteSkinning,
+// AssignExtra); arguments are block indices at the time of the call. randomModelOp returns "" when nothing applies.
+std::string randomModelOp(NifFile& nif, std::mt19937_64& r);
+bool applyModelOp(NifFile& nif, const JV& a);
 // A seeded random NifGraph action (JSON) that is applicable to the model (well-formed arguments)
 std::string randomGraphOp(NifFile& nif, std::mt19937_64& rng);
 
